@@ -230,14 +230,24 @@ impl DbText {
             _ => "  =  ",
         };
         let ind = if self.style & 4 != 0 { "  " } else { "" };
+        // ua_os rules: blanks around names and `=` are layout, not part of the rule (names may contain inner blanks); nothing may
+        // stand between `]` and the next comma
+        let ua = |u: &[(String, Option<String>)]| -> String {
+            let (pre, post, eqs) = match (self.style >> 3) % 4 {
+                0 => ("", "", "="),
+                1 => (" ", "", " = "),
+                2 => ("", " ", "= "),
+                _ => (" ", " ", " ="),
+            };
+            u.iter().map(|(n, v)| match v { Some(v) => format!("{pre}{n}{eqs}[{v}]"), None => format!("{pre}{n}{post}") }).collect::<Vec<_>>().join(",")
+        };
         let mut out = String::new();
         out.push_str("; generated database\n\n");
         if !self.classes.is_empty() {
             out.push_str(&format!("classes{eq}{}\n", self.classes.join(",")));
         }
         if !self.ua_os.is_empty() {
-            let e: Vec<String> = self.ua_os.iter().map(|(n, v)| match v { Some(v) => format!("{n}=[{v}]"), None => n.clone() }).collect();
-            out.push_str(&format!("ua_os{eq}{}\n", e.join(",")));
+            out.push_str(&format!("ua_os{eq}{}\n", ua(&self.ua_os)));
         }
         for s in &self.sections {
             out.push_str(&format!("\n[{}]\n", SECTION_NAMES[s.kind as usize % 5]));
@@ -247,8 +257,7 @@ impl DbText {
                     (Item::Comment(c), _) => out.push_str(&format!("; {c}\n")),
                     (Item::Classes(c), _) if !c.is_empty() => out.push_str(&format!("classes{eq}{}\n", c.join(","))),
                     (Item::UaOs(u), _) if !u.is_empty() => {
-                        let e: Vec<String> = u.iter().map(|(n, v)| match v { Some(v) => format!("{n}=[{v}]"), None => n.clone() }).collect();
-                        out.push_str(&format!("ua_os{eq}{}\n", e.join(",")))
+                        out.push_str(&format!("ua_os{eq}{}\n", ua(u)))
                     }
                     (Item::Blank, _) => out.push('\n'),
                     (Item::MtuLabel(l), 0) => {
